@@ -112,9 +112,25 @@ func main() {
 				continue
 			}
 			trace = append(trace, fmt.Sprintf("%q", argv))
+			t0 := time.Now().UnixNano()
 			r2, p2 := c2.Dispatch(toArgv(argv))
 			r3, p3 := c3.Dispatch(toArgv(argv))
+			t1 := time.Now().UnixNano()
 			stats["commands"]++
+			// The two stores execute the command one after the other. A deadline the generator has set
+			// that falls between the two executions (a loaded machine can put milliseconds between them)
+			// lets one store see a key the other one has already lost: from here on they may differ for a
+			// reason that has nothing to do with the protocol, and the sequence ends without a verdict.
+			crossed := false
+			for _, d := range g.Dangers {
+				if d >= t0-int64(time.Millisecond) && d <= t1+int64(time.Millisecond) {
+					crossed = true
+				}
+			}
+			if crossed {
+				stats["sequences_ended_at_a_deadline"]++
+				break
+			}
 			if p2 != "" || p3 != "" {
 				stats["panics"]++
 				continue
